@@ -19,6 +19,8 @@ import (
 	"context"
 	"errors"
 	"fmt"
+	"github.com/mgtv-tech/redis-GunYu/pkg/filter"
+	"github.com/mgtv-tech/redis-GunYu/pkg/vfc20"
 	"io"
 	"net"
 	"strconv"
@@ -728,38 +730,55 @@ func (w *vfc18World) rdbCase(c vfc18RdbCase, i int) {
 		ReplayRdbEnableRestore: c.Restore, MaxProtoBulkLen: 1 << 20, TargetDb: -1})
 	conn := &vfc18Redis{c: w.newCluster("none", 0)}
 	unit, skip, err := ro.buildBisyncRdbReplayUnit(conn, 77, e, newBisyncRdbReplayState())
-	tk := vfc18TargetKey(c.Replace, key)
-	replay := c.replay()
-	rep := "0"
-	if c.Replace {
-		rep = "1"
-	}
 	if err != nil || skip || unit == nil {
 		s.Count("rdb_skip_or_error")
 		return
+	}
+	raw := make([]vfc18Cmd, len(p.cmds))
+	for j, rc := range p.cmds {
+		args, _ := bisyncArgsFromInterfaces(rc[1:])
+		raw[j] = vfc18Cmd{Name: rc[0].(string), Args: args}
+	}
+	w.rdbJudge(ro, conn, e, unit, raw, c.Replace, c.KeyExists, true, c.replay(), fmt.Sprintf("runid-rdb-%d", i))
+}
+
+// key positions of the commands a snapshot unit consists of, written from the command reference
+// (independent of the tool's tables): everything has its key first, except XGROUP <sub> key …
+func vfc18RdbOracle(name string) ([]int, bool) {
+	switch name {
+	case "set", "hset", "rpush", "sadd", "zadd", "xadd", "xsetid", "xclaim", "restore", "del", "pexpire":
+		return []int{0}, true
+	case "xgroup":
+		return []int{1}, true
+	}
+	return nil, false
+}
+
+// rdbJudge: one snapshot unit the real builder made from `e` — its command list against the model
+// (op c18 rdbcmds, fed with what the object parser handed over), its slot, every key of every command
+// (oracle positions, cross-checked with the tool's tables) on the target key, one block at the slot owner.
+func (w *vfc18World) rdbJudge(ro *RedisOutput, conn client.Redis, e *rdb.BinEntry, unit *bisyncReplayUnit, raw []vfc18Cmd,
+	replace bool, keyExists string, v5 bool, replay map[string]interface{}, run string) {
+	s := w.s
+	key := e.Key
+	tk := vfc18TargetKey(replace, key)
+	rep := "0"
+	if replace {
+		rep = "1"
+	}
+	b := func(x bool) string {
+		if x {
+			return "1"
+		}
+		return "0"
 	}
 	s.Op(fmt.Sprintf("c18 rdb 1 %s %s", rep, vfutil.Hex(key)), fmt.Sprintf("%s slot=%d tag=%s", vfutil.Hex(tk), unit.Slot, vfutil.HexS(unit.SlotTag)))
 	s.Count("rdb_unit")
 	// the command list itself against the model (ttl and dump arguments canonicalised)
 	{
-		b := func(x bool) string {
-			if x {
-				return "1"
-			}
-			return "0"
-		}
-		rawToks := make([]string, len(p.cmds))
-		for j, rc := range p.cmds {
-			vc := vfc18Cmd{Name: rc[0].(string)}
-			for _, a := range rc[1:] {
-				switch x := a.(type) {
-				case []byte:
-					vc.Args = append(vc.Args, x)
-				case string:
-					vc.Args = append(vc.Args, []byte(x))
-				}
-			}
-			rawToks[j] = vc.tok()
+		rawToks := make([]string, len(raw))
+		for j, rc := range raw {
+			rawToks[j] = rc.tok()
 		}
 		got := make([]string, len(unit.Commands))
 		for j, uc := range unit.Commands {
@@ -780,8 +799,8 @@ func (w *vfc18World) rdbCase(c vfc18RdbCase, i int) {
 		if useRestore {
 			s.Count("rdb_unit_restore_form")
 		}
-		s.Op(fmt.Sprintf("c18 rdbcmds %s %s %s %s %s %s %s", b(useRestore), b(c.FirstBin), b(c.KeyExists == "replace"), b(c.Expire), rep,
-			vfutil.Hex(key), strings.Join(rawToks, " ")), strings.Join(got, " "))
+		s.Op(fmt.Sprintf("c18 rdbcmds %s %s %s %s %s %s %d %d %s %s", b(useRestore), b(e.FirstBin()), b(keyExists == "replace"), b(e.ExpireAt != 0), rep,
+			b(v5), e.IdleTime, e.Freq, vfutil.Hex(key), strings.Join(rawToks, " ")), strings.Join(got, " "))
 	}
 	if len(unit.Commands) > 64 {
 		s.Count("rdb_unit_over_64_commands")
@@ -791,18 +810,30 @@ func (w *vfc18World) rdbCase(c vfc18RdbCase, i int) {
 		s.Violate("rdb-unit-slot-differs-from-hash-slot", fmt.Sprintf("unit.Slot=%d, HASH_SLOT(target key %q)=%d", unit.Slot, tk, want), replay)
 	}
 	for _, uc := range unit.Commands {
-		if len(uc.Args) == 0 || !bytes.Equal(uc.Args[0], tk) {
-			s.Violate("rdb-command-off-target-key", fmt.Sprintf("command %s is not on the target key %q", uc.Cmd, tk), replay)
+		idx, ok := vfc18RdbOracle(uc.Cmd)
+		if !ok {
+			s.Violate("tie-shape:rdb-command-without-oracle", "the unit holds a command the harness has no key positions for: "+uc.Cmd, replay)
+			continue
 		}
-		w.nodes.register(vfc18Cmd{Name: uc.Cmd, Args: uc.Args, Truth: []int{0}, Class: "known"})
+		s.Count("rdb_cmd_" + uc.Cmd)
+		if ti, tok := filter.CommandKeyIndexes(uc.Cmd, uc.Args); !tok || fmt.Sprint(ti) != fmt.Sprint(idx) {
+			s.Violate("rdb-key-positions-differ", fmt.Sprintf("%s: the tool's tables name key positions %v (ok=%v), the command reference %v", uc.Cmd, ti, tok, idx), replay)
+		}
+		for _, ki := range idx {
+			if ki >= len(uc.Args) || !bytes.Equal(uc.Args[ki], tk) {
+				s.Violate("rdb-command-off-target-key", fmt.Sprintf("key position %d of %s %q is not the target key %q: the unit spans slots (or writes another key)", ki, uc.Cmd, uc.Args, tk), replay)
+			} else if hs := vfc18HashSlot(uc.Args[ki]); hs != int(unit.Slot) {
+				s.Violate("block-key-off-slot", fmt.Sprintf("key %q of %s hashes to %d, unit slot %d", uc.Args[ki], uc.Cmd, hs, unit.Slot), replay)
+			}
+		}
+		w.nodes.register(vfc18Cmd{Name: uc.Cmd, Args: uc.Args, Truth: idx, Class: "known"})
 	}
 	w.nodes.take()
-	rdbRun := fmt.Sprintf("runid-rdb-%d", i)
-	derr := ro.execBisyncRdbUnit(conn, rdbRun, unit)
+	derr := ro.execBisyncRdbUnit(conn, run, unit)
 	all, stray := w.nodes.take() // synchronous call: everything it sent is here (blocks of other runs: late lane workers of the last loop case)
 	var blocks []vfc18Block
 	for _, b := range all {
-		if b.Run == rdbRun {
+		if b.Run == run {
 			blocks = append(blocks, b)
 		} else if len(b.Cmds) == 0 || !strings.EqualFold(string(b.Cmds[0][0]), "set") || !checkpoint.IsBisyncMarkerKey(string(b.Cmds[0][1])) {
 			// a block that does not start with a marker is nobody's late unit: the snapshot unit was split
@@ -816,6 +847,123 @@ func (w *vfc18World) rdbCase(c vfc18RdbCase, i int) {
 	if len(blocks) != 1 || stray != 0 || blocks[0].Rejected != "" || blocks[0].Node != w.ownerIdx(want) ||
 		len(blocks[0].Cmds) != len(unit.Commands)+1 || vfc18HashSlot(blocks[0].Cmds[0][1]) != want {
 		s.Violate("rdb-unit-block", fmt.Sprintf("%d blocks / %d stray; want one block of marker + %d commands at the owner of slot %d", len(blocks), stray, len(unit.Commands), want), replay)
+	}
+}
+
+// realRdbCases: values of every type the builder produces — string, list, set, zset, hash, stream (entries,
+// XSETID, a consumer group with a pending entry and a consumer: XGROUP CREATE names the key SECOND), module —
+// written as a snapshot, read by the REAL rdb.Loader (optionally with a small bin threshold: split values),
+// every bin through the real buildBisyncRdbReplayUnit in cluster mode. What the object parser hands over is
+// captured from a second load of the same bytes and fed to the model.
+func (w *vfc18World) realRdbCases(r *vfutil.Rand, n int) {
+	for i := 0; i < n; i++ {
+		w.realRdbCase(r.U64(), i)
+	}
+}
+
+func (w *vfc18World) realRdbCase(sub uint64, i int) {
+	s := w.s
+	r := vfutil.NewRand(sub)
+	tags := [][]byte{[]byte("a"), []byte("user:1"), {0xff, 0x01}, []byte("t")}
+	key := vfc18Key(r, vfutil.Pick(r, tags))
+	if len(key) == 0 {
+		key = []byte("k")
+	}
+	replace := r.Chance(2, 3)
+	keyExists := vfutil.Pick(r, []string{"replace", "replace", "", "", "ignore"})
+	restore := r.Bool()
+	ver := vfutil.Pick(r, []string{"7.0.0", "7.0.0", "4.0.0"})
+	typ := vfutil.Pick(r, []int{0, 1, 2, 3, 4, 15, 15, 15, 7})
+	var kv vfc20.KV
+	nItems := r.Range(1, 5)
+	if r.Chance(1, 5) {
+		nItems = r.Range(30, 120)
+	}
+	switch typ {
+	case 0:
+		kv = vfc20.KV{Key: key, Type: 0, Str: []byte(fmt.Sprintf("v%d", r.Intn(1000)))}
+	case 1, 2:
+		kv = vfc20.KV{Key: key, Type: byte(typ)}
+		for j := 0; j < nItems; j++ {
+			kv.Items = append(kv.Items, []byte(fmt.Sprintf("m%d", j)))
+		}
+		if r.Chance(1, 3) {
+			kv.Items[0] = key // a member that equals the key
+		}
+	case 3:
+		kv = vfc20.KV{Key: key, Type: 3}
+		for j := 0; j < nItems; j++ {
+			kv.Items = append(kv.Items, []byte(fmt.Sprintf("z%d", j)), []byte(strconv.Itoa(r.Range(-50, 50))))
+		}
+	case 4:
+		kv = vfc20.KV{Key: key, Type: 4}
+		for j := 0; j < nItems; j++ {
+			kv.Items = append(kv.Items, []byte(fmt.Sprintf("f%d", j)), []byte(fmt.Sprintf("v%d", j)))
+		}
+		if r.Chance(1, 3) {
+			kv.Items[1] = key // a value that equals the key
+		}
+	case 15:
+		kv = vfc20.SmallStreamG(string(key), vfutil.Pick(r, []string{"f", "field"}), vfutil.Pick(r, []string{"g", "g", "grp", ""}))
+	default:
+		kv = vfc20.ModuleValue(string(key))
+	}
+	if r.Chance(1, 3) {
+		kv.ExpireAt = uint64(time.Now().UnixMilli()) + 100000
+	}
+	snap := vfc20.BuildRDB([]vfc20.KV{kv}, vfc20.Opts{})
+	thr := 0
+	if r.Chance(1, 3) {
+		thr = vfutil.Pick(r, []int{16, 48}) // small bins: a value of many elements arrives in several entries
+	}
+	entsA, errA := vfc20.Load(snap, thr, ver)
+	entsB, errB := vfc20.Load(snap, thr, ver)
+	replay := map[string]interface{}{"realrdb": fmt.Sprint(sub)}
+	if errA != nil || errB != nil || len(entsA) != len(entsB) || len(entsA) == 0 {
+		s.Violate("tie-shape:rdb-writer-rejected", fmt.Sprintf("the loader refused the harness's snapshot (type %d): %v / %v", typ, errA, errB), replay)
+		return
+	}
+	idle, freq := uint32(0), uint8(0)
+	if r.Chance(1, 3) {
+		idle = uint32(r.Range(1, 5000))
+	}
+	if r.Chance(1, 3) {
+		freq = uint8(r.Range(1, 250))
+	}
+	ro := NewRedisOutput(RedisOutputConfig{InputName: "in-1", CheckpointName: w.cp, BisyncEnabled: true, BatchCmdCount: 8,
+		Redis: config.RedisConfig{Type: config.RedisTypeCluster, Version: ver}, ReplaceHashTag: replace, KeyExists: keyExists,
+		ReplayRdbEnableRestore: restore, MaxProtoBulkLen: 1 << 20, TargetDb: -1})
+	conn := &vfc18Redis{c: w.newCluster("none", 0)}
+	state := newBisyncRdbReplayState()
+	s.Count(fmt.Sprintf("realrdb_type_%d", typ))
+	for j, e := range entsA {
+		if !bisyncRdbIsKeyedEntry(e) {
+			continue
+		}
+		e.IdleTime, e.Freq = idle, freq
+		entsB[j].IdleTime, entsB[j].Freq = idle, freq
+		unit, skip, err := ro.buildBisyncRdbReplayUnit(conn, 77, e, state)
+		if err != nil || skip || unit == nil {
+			s.Count("realrdb_skip_or_error")
+			continue
+		}
+		// what the object parser hands over (second load: parsers may be consumed by ExecCmd)
+		var raw []vfc18Cmd
+		func() {
+			defer func() { recover() }()
+			entsB[j].ObjectParser.ExecCmd(func(cmd string, args ...interface{}) error {
+				a, err := bisyncArgsFromInterfaces(args)
+				if err != nil {
+					return err
+				}
+				raw = append(raw, vfc18Cmd{Name: cmd, Args: a})
+				return nil
+			})
+		}()
+		if len(entsA) > 1 {
+			s.Count("realrdb_split_bin")
+		}
+		w.rdbJudge(ro, conn, e, unit, raw, replace, keyExists, ver != "4.0.0", replay, fmt.Sprintf("runid-rrdb-%d-%d", i, j))
 	}
 }
 
